@@ -1646,6 +1646,8 @@ func (w *world) audit(res *hx.Result, spec *worldSpec, ci int, cs *contactSpec, 
 						end := first.Add(24 * time.Hour)
 						if lt == t.Before(first) && eq == (!t.Before(first) && t.Before(end)) && gt == !t.Before(end) {
 							class = "date-comparison:dst-transition-day"
+						} else if v.edge {
+							class = "date-comparison:value-time-overflows-day"
 						} else {
 							class = "date-comparison:day-start-not-on-queried-day"
 						}
